@@ -259,6 +259,17 @@ class Inliner:
                         and n.id not in hl0 and not hasattr(builtins, n.id):
                     a = self.repo.qualify(h.module, n)
                     b = self.repo.qualify(caller.module, n)
+                    if a is not None and b is None and \
+                            n.id in h.module.imports and \
+                            n.id not in caller.module.imports and \
+                            n.id not in caller.module.globals and \
+                            n.id not in caller.module.classes and \
+                            n.id not in caller.module.functions and \
+                            n.id not in _locals_of(caller.node):
+                        # a name the helper's module imports and the caller's
+                        # module does not know at all: the import comes along
+                        self._carry_import(h.module, caller.module, n.id)
+                        continue
                     if a is None or a != b:
                         return None
         a = h.node.args
@@ -292,6 +303,36 @@ class Inliner:
         if any(d.rsplit(".", 1)[-1] not in allowed for d in h.decorators):
             return None  # a decorator changes what a call means (caches ...)
         return h
+
+    def _carry_import(self, src_mod, dst_mod, name: str) -> None:
+        """Copy the import statement that binds `name` in src_mod to the top
+        of dst_mod (tree and import table)."""
+        for st in src_mod.tree.body:
+            if isinstance(st, (ast.Import, ast.ImportFrom)):
+                for al in st.names:
+                    bound = al.asname or al.name.split(".")[0]
+                    if bound == name:
+                        new = ast.ImportFrom(
+                            module=st.module, names=[ast.alias(
+                                name=al.name, asname=al.asname)],
+                            level=0) if isinstance(st, ast.ImportFrom) and \
+                            not st.level else (ast.Import(names=[ast.alias(
+                                name=al.name, asname=al.asname)])
+                                if isinstance(st, ast.Import) else None)
+                        if new is None:
+                            return
+                        ast.copy_location(new, dst_mod.tree.body[0])
+                        ast.fix_missing_locations(new)
+                        # after the module docstring / __future__ imports
+                        i = 0
+                        while i < len(dst_mod.tree.body) and (isinstance(
+                                dst_mod.tree.body[i], ast.Expr) or (isinstance(
+                                    dst_mod.tree.body[i], ast.ImportFrom) and
+                                dst_mod.tree.body[i].module == "__future__")):
+                            i += 1
+                        dst_mod.tree.body.insert(i, new)
+                        dst_mod.imports[name] = src_mod.imports[name]
+                        return
 
     def bind_params(self, h: FunctionInfo, call: ast.Call, suffix: str,
                     caller: FunctionInfo):
@@ -440,6 +481,84 @@ class Inliner:
             return out
 
         caller.node.body = process(caller.node.body)
+        # expression helpers: `def h(p..): return EXPR` called anywhere in an
+        # expression (a comprehension element, an argument) with simple
+        # arguments is EXPR with the parameters substituted
+        inl = self
+
+        class _ExprInline(ast.NodeTransformer):
+
+            def visit_FunctionDef(self, node):
+                return node if node is not caller.node else \
+                    self.generic_visit(node)
+
+            visit_AsyncFunctionDef = visit_FunctionDef
+
+            def visit_Lambda(self, node):
+                return node
+
+            def visit_Call(self, node):
+                self.generic_visit(node)
+                h = inl.candidate(caller, node)
+                if h is None or isinstance(h.node, ast.AsyncFunctionDef):
+                    return node
+                body = [s for s in h.node.body if not (isinstance(
+                    s, ast.Expr) and isinstance(s.value, ast.Constant))]
+                if len(body) != 1 or not isinstance(body[0], ast.Return) or \
+                        body[0].value is None or any(isinstance(
+                            x, (ast.Yield, ast.YieldFrom, ast.Await, ast.Lambda,
+                                ast.NamedExpr, ast.ListComp, ast.SetComp,
+                                ast.DictComp, ast.GeneratorExp))
+                            for x in ast.walk(body[0].value)):
+                    return node
+                params = [x.arg for x in h.node.args.posonlyargs +
+                          h.node.args.args]
+                mapping: dict[str, ast.AST] = {}
+                pos = params
+                if h.cls is not None and not h.is_static and params and \
+                        params[0] in ("self", "cls"):
+                    if not isinstance(node.func, ast.Attribute):
+                        return node
+                    mapping[params[0]] = node.func.value
+                    pos = params[1:]
+                for i, a in enumerate(node.args):
+                    if i >= len(pos):
+                        return node
+                    mapping[pos[i]] = a
+                for k in node.keywords:
+                    if k.arg is None:
+                        return node
+                    mapping[k.arg] = k.value
+                for p_ in pos + [x.arg for x in h.node.args.kwonlyargs]:
+                    if p_ not in mapping:
+                        d = h.param_default(p_)
+                        if d is None:
+                            return node
+                        mapping[p_] = d
+
+                def simple(e):
+                    return isinstance(e, (ast.Name, ast.Constant)) or (
+                        isinstance(e, ast.Attribute) and simple(e.value))
+                if not all(simple(v) for v in mapping.values()):
+                    return node
+                # no local of the helper besides its parameters
+                if _locals_of(h.node) - set(mapping):
+                    return node
+
+                class _Sub(ast.NodeTransformer):
+
+                    def visit_Name(self, n):
+                        if isinstance(n.ctx, ast.Load) and n.id in mapping:
+                            return ast.copy_location(_clone(mapping[n.id]), n)
+                        return n
+
+                new_e = _Sub().visit(_clone(body[0].value))
+                inl.inlined.append(f"{h.fq} into {caller.fq} (expression)")
+                nonlocal changed
+                changed = True
+                return ast.copy_location(new_e, node)
+
+        _ExprInline().visit(caller.node)
         return changed
 
     def inline_statement(self, caller: FunctionInfo,
@@ -781,6 +900,35 @@ REFERENCE_SIGS: dict[str, list[str]] = json.loads(
 MOVED: dict[str, str] = {}
 
 
+REFERENCE_DIGESTS: dict[str, str] = json.loads(
+    (Path(__file__).parent / "reference_functions.json").read_text()
+).get("body_digests", {})
+
+
+def body_digest(fn_node) -> str:
+    """Digest of a function body with parameters renamed positionally and the
+    docstring dropped (used to recognise rename + parameter rename)."""
+    import hashlib as _h
+    from sa.model import clone as _cl
+    node = _cl(fn_node)
+    a = node.args
+    params = [x.arg for x in a.posonlyargs + a.args + a.kwonlyargs]
+    if a.vararg:
+        params.append(a.vararg.arg)
+    if a.kwarg:
+        params.append(a.kwarg.arg)
+    m = {p: f"__p{i}" for i, p in enumerate(params)}
+    body = [s for s in node.body if not (isinstance(s, ast.Expr) and isinstance(
+        s.value, ast.Constant) and isinstance(s.value.value, str))]
+    for s in body:
+        for n in ast.walk(s):
+            if isinstance(n, ast.Name) and n.id in m:
+                n.id = m[n.id]
+    txt = "\n".join(ast.dump(s, annotate_fields=False, include_attributes=False)
+                    for s in body)
+    return _h.sha256(txt.encode()).hexdigest()[:16]
+
+
 def normalise_function_renames(repo: Repo) -> list[str]:
     """A reference function that vanished while exactly one new function with
     the same parameter list appeared in the same scope is a rename: the new
@@ -816,8 +964,14 @@ def normalise_function_renames(repo: Repo) -> list[str]:
             same = [f for f in new if f.module.name == mod and
                     scope_of(f.qualname) == scope_of(qual) and
                     len(f.params()) == len(REFERENCE_SIGS[v]) and
-                    f.params()[:1] == REFERENCE_SIGS[v][:1] and
-                    f.fq not in taken]
+                    [p for p in f.params()[:1] if p in ("self", "cls")] ==
+                    [p for p in REFERENCE_SIGS[v][:1] if p in ("self", "cls")]
+                    and f.fq not in taken and (
+                        # the first parameter kept its name (the convention
+                        # so far), or the body is the reference body up to
+                        # the parameter names
+                        f.params()[:1] == REFERENCE_SIGS[v][:1] or
+                        REFERENCE_DIGESTS.get(v) == body_digest(f.node))]
         if len(same) == 1 and same[0].name not in ref_names and \
                 same[0].name not in renames:
             taken.add(same[0].fq)
@@ -846,6 +1000,26 @@ def normalise_function_renames(repo: Repo) -> list[str]:
     return log
 
 
+def _init_values(ci) -> dict[str, str]:
+    """attr -> text of the value assigned to self.<attr> in __init__ (first
+    assignment), for private attributes."""
+    out: dict[str, str] = {}
+    init = ci.methods.get("__init__")
+    if init is None:
+        return out
+    for n in ast.walk(init.node):
+        t = v = None
+        if isinstance(n, ast.Assign) and len(n.targets) == 1:
+            t, v = n.targets[0], n.value
+        elif isinstance(n, ast.AnnAssign) and n.value is not None:
+            t, v = n.target, n.value
+        if isinstance(t, ast.Attribute) and isinstance(
+                t.value, ast.Name) and t.value.id == "self" and \
+                t.attr.startswith("_") and t.attr not in out:
+            out[t.attr] = ast.unparse(v)
+    return out
+
+
 def normalise_renames(repo: Repo) -> list[str]:
     """A private attribute of a reference class that vanished while exactly
     one new private attribute appeared in that class is a rename: the new
@@ -868,12 +1042,37 @@ def normalise_renames(repo: Repo) -> list[str]:
                     renames[a] = b
                     log.append(f"attribute {ci.name}.{a} read as {b} "
                                "(renamed private attribute)")
+            elif missing and len(missing) == len(new):
+                # several renames at once: paired by the value __init__
+                # assigns (the reference's init value, unique on both sides)
+                ref_init = REFERENCE_INITS.get(ci.fq, {})
+                cur_init = _init_values(ci)
+                pairs = {}
+                for b in missing:
+                    rv = ref_init.get(b)
+                    cands = [a for a in new if rv is not None and
+                             cur_init.get(a) == rv]
+                    if len(cands) == 1 and sum(
+                            1 for x in missing if ref_init.get(x) == rv) == 1:
+                        pairs[cands[0]] = b
+                if len(pairs) == len(missing) and not any(
+                        a in known or a in renames for a in pairs):
+                    for a, b in pairs.items():
+                        renames[a] = b
+                        log.append(f"attribute {ci.name}.{a} read as {b} "
+                                   "(renamed private attribute, paired by "
+                                   "its initial value)")
     if renames:
         for mod in repo.hand_written():
             for n in ast.walk(mod.tree):
                 if isinstance(n, ast.Attribute) and n.attr in renames:
                     n.attr = renames[n.attr]
     return log
+
+
+REFERENCE_INITS: dict[str, dict[str, str]] = json.loads(
+    (Path(__file__).parent / "reference_functions.json").read_text()
+).get("class_attr_inits", {})
 
 
 REFERENCE_CLASSES = set(json.loads(
@@ -949,6 +1148,99 @@ def normalise_namedtuples(repo: Repo) -> list[str]:
         T().visit(mod.tree)
         ast.fix_missing_locations(mod.tree)
         log.append(f"{mod.name}: NamedTuple {sorted(new_nt)} read as tuples")
+    return log
+
+
+REFERENCE_CONSTANTS: dict[str, list[str]] = json.loads(
+    (Path(__file__).parent / "reference_functions.json").read_text()
+).get("module_constants", {})
+
+
+def normalise_constants(repo: Repo) -> list[str]:
+    """A module-level name bound once to a literal (str / int / float /
+    bytes / bool) that the reference tree does not have is the literal it
+    names: loads of it - in its module and wherever it is imported by
+    `from M import NAME` - are replaced (a literal hoisted into a named
+    constant is invisible to the rules)."""
+    log: list[str] = []
+    for mod in repo.hand_written():
+        known = set(REFERENCE_CONSTANTS.get(mod.name, ()))
+        cands: dict[str, ast.AST] = {}
+        for st in mod.tree.body:
+            t = v = None
+            if isinstance(st, ast.Assign) and len(st.targets) == 1 and \
+                    isinstance(st.targets[0], ast.Name):
+                t, v = st.targets[0].id, st.value
+            elif isinstance(st, ast.AnnAssign) and isinstance(
+                    st.target, ast.Name) and st.value is not None:
+                t, v = st.target.id, st.value
+            if t and isinstance(v, ast.Constant) and isinstance(
+                    v.value, (str, int, float, bytes, bool)) and \
+                    t not in known and not t.startswith("__"):
+                cands[t] = v
+            # a generic alias of an imported class (`_Q = queue.Queue[T]`)
+            elif t and isinstance(v, ast.Subscript) and t not in known and \
+                    t not in mod.classes and t not in mod.functions:
+                base = v.value
+                d = dotted(base)
+                if d and d.split(".")[0] in mod.imports and not any(
+                        isinstance(x, (ast.Call, ast.Lambda))
+                        for x in ast.walk(v)):
+                    cands[t] = v
+        for name in list(cands):
+            stores = [n for n in ast.walk(mod.tree) if isinstance(
+                n, ast.Name) and n.id == name and isinstance(
+                    n.ctx, (ast.Store, ast.Del))]
+            globs = [n for n in ast.walk(mod.tree) if isinstance(
+                n, (ast.Global, ast.Nonlocal)) and name in n.names]
+            params = [n for n in ast.walk(mod.tree) if isinstance(
+                n, ast.arg) and n.arg == name]
+            if len(stores) != 1 or globs or params:
+                del cands[name]
+        if not cands:
+            continue
+        # importers: from <mod> import NAME [as ALIAS]
+        targets: list[tuple] = [(mod, {n: n for n in cands})]
+        for other in repo.hand_written():
+            if other is mod:
+                continue
+            amap = {}
+            for st in other.tree.body:
+                if isinstance(st, ast.ImportFrom) and not st.level and \
+                        st.module == mod.name:
+                    for al in st.names:
+                        if al.name in cands:
+                            amap[al.asname or al.name] = al.name
+            if amap:
+                # the alias must not be rebound in the importer
+                ok = {a: n for a, n in amap.items() if not any(
+                    isinstance(x, ast.Name) and x.id == a and isinstance(
+                        x.ctx, (ast.Store, ast.Del))
+                    for x in ast.walk(other.tree)) and not any(
+                        isinstance(x, ast.arg) and x.arg == a
+                        for x in ast.walk(other.tree))}
+                if ok:
+                    targets.append((other, ok))
+        n_rep = 0
+        for m2, amap in targets:
+
+            class _C(ast.NodeTransformer):
+
+                def visit_Name(self, n):
+                    nonlocal n_rep
+                    if isinstance(n.ctx, ast.Load) and n.id in amap:
+                        n_rep += 1
+                        cv = cands[amap[n.id]]
+                        return ast.copy_location(
+                            ast.Constant(value=cv.value) if isinstance(
+                                cv, ast.Constant) else _clone(cv), n)
+                    return n
+
+            _C().visit(m2.tree)
+            ast.fix_missing_locations(m2.tree)
+        if n_rep:
+            log.append(f"{mod.name}: module constant(s) {sorted(cands)} read "
+                       f"as their literals ({n_rep} use(s))")
     return log
 
 
@@ -1112,7 +1404,7 @@ def _closure_in_block(fn: FunctionInfo, owner: ast.AST, log: list[str]) -> None:
 def normalise(repo: Repo, resolver_factory, max_rounds: int = 3):
     """Return (repo', log): repo with non-reference helpers inlined."""
     log: list[str] = []
-    klog = normalise_kwargs_attrs(repo)
+    klog = normalise_constants(repo) + normalise_kwargs_attrs(repo)
     if klog:
         log += klog
         repo = Repo(root=repo.root, overlay=repo.overlay, trees={
